@@ -3,7 +3,7 @@ from __future__ import annotations
 
 import ast
 
-from engine.cfg import CFG, normalise_compare, atoms
+from engine.cfg import CFG, normalise_compare, atoms, A
 from engine.model import src, stmt_key, dotted
 from engine import pat
 from rules import roles
@@ -140,7 +140,7 @@ def run(model, rep, tier):
         rep.check(bool(sub) and cfg.edge_dominated(mnode.id, {(tt.id, "f") for tt in sub}), "R-13.2", PM, where(pm, mnode.ast), "out-of-zone owner names are skipped before any effect",
                   "an owner name outside the zone can reach add/delete", stmt=f"in-zone: {stmt_key(mnode.ast)}")
     # serial arithmetic
-    ser = [tt for tt in cfg.nodes if tt.kind == "test" and any(a == ("dns.serial.Serial(soa.serial)", "<", "self.serial") for a in atoms(normalise_compare(tt.ast.test)))]
+    ser = [tt for tt in cfg.nodes if tt.kind == "test" and any(a == A("dns.serial.Serial(soa.serial)", "<", "self.serial") for a in atoms(normalise_compare(tt.ast.test)))]
     rb = [n for n in cfg.nodes if isinstance(n.ast, ast.Raise) and "SerialWentBackwards" in src(n.ast)]
     rep.check(len(ser) == 1 and len(rb) == 1 and cfg.edge_dominated(rb[0].id, {(ser[0].id, "t")}), "R-13.2", PM, where(pm, pm.node),
               "serial regression detected with RFC 1982 arithmetic (dns.serial.Serial)", "serial regression test no longer uses dns.serial.Serial(...) < self.serial", stmt="serial-compare")
